@@ -249,6 +249,10 @@ impl DWorld {
                 let mut caps = vec![c11::good_common(), c11::good_notify(), c11::good_isr()];
                 if cfg_len >= 4 {
                     caps.push(VCap { length: cfg_len, ..c11::good_device() });
+                    // A second device-configuration capability behind the first one (the driver
+                    // uses the first it can support): a longer window elsewhere in the BAR, which
+                    // the register world does not know.
+                    caps.push(VCap { length: cfg_len + 16, offset: 0x2800, idpad: 1, ..c11::good_device() });
                 }
                 let specs: Vec<_> = caps.iter().map(|c| c.spec()).collect();
                 layout_caps(&mut f, &specs, false);
